@@ -47,6 +47,8 @@ type Case struct {
 	Early     []int          `json:"early_writes,omitempty"` // server Write sizes right after WrapConn, released together with the response
 	EarlyRead []int          `json:"early_read_sz,omitempty"`
 	Ops       []Op           `json:"ops"`
+	// full-duplex family: both endpoints read and write at once from real goroutines
+	Duplex *o4pair.DuplexOpts `json:"duplex,omitempty"`
 }
 
 var sizeClasses = []int{0, 1, 1426, 1427, 1428, 1447, 1448, 1449, 2*1427 - 1, 2 * 1427, 2*1427 + 1, 5000, 65535, 65536, 65537}
@@ -161,6 +163,21 @@ func (x *runner) runCase(c Case) (v *verdict, skipped bool, stats map[string]int
 		return &verdict{"handshake-failed", err.Error()}, false, stats
 	}
 	defer pr.Close()
+	if c.Duplex != nil {
+		sig, desc, st := pr.Duplex(*c.Duplex)
+		for k, v := range st {
+			stats[k] = v
+		}
+		stats["bytes"] = st["delivered-c2s"] + st["delivered-s2c"]
+		stats["split-releases"] = 1
+		if sig == "duplex-panic-in-write" && len(desc) > 0 && bytes.Contains([]byte(desc), []byte("iat length was 0")) {
+			return nil, true, stats
+		}
+		if sig != "" {
+			return &verdict{sig, desc}, false, stats
+		}
+		return nil, false, stats
+	}
 	// the constructors have returned: no handshake deadline may stay armed on the underlying
 	// conn, in either half — a conn that honours deadlines would kill the established
 	// connection 60 s (client) / 30 s (server) after it was made
@@ -534,6 +551,25 @@ func genHsCut(p o4pair.Params, fam int, which string, n int, early []int) Case {
 	}
 	c.Ops = []Op{{Kind: "w", Dir: 0, Sizes: []int{1}}, {Kind: "mv", Dir: 0, Chunk: o4pair.Chunker{Kind: "whole"}, ReadSz: []int{100}},
 		{Kind: "w", Dir: 1, Sizes: []int{1}}, {Kind: "mv", Dir: 1, Chunk: o4pair.Chunker{Kind: "whole"}, ReadSz: []int{100}}}
+	return c
+}
+
+// genDuplex: both endpoints read and write simultaneously (one reader and one writer goroutine
+// per endpoint, as the relay's copy loop does); position-dependent, direction-specific content.
+func genDuplex(rng *vlib.Rng, i int, thorough bool) Case {
+	iat := 0
+	total := [2]int{rng.Range(1, 3) << 20, rng.Range(1, 3) << 20}
+	if thorough {
+		total = [2]int{rng.Range(2, 6) << 20, rng.Range(2, 6) << 20}
+	}
+	if i%4 == 3 {
+		iat = 1 + (i/4)%2
+		total = [2]int{rng.Range(40, 128) << 10, rng.Range(40, 128) << 10}
+	}
+	c := Case{Name: fmt.Sprintf("duplex-%d", i), P: o4pair.RandomParams(rng, iat, i%5 == 4)}
+	c.Duplex = &o4pair.DuplexOpts{Total: total, Seed: rng.U64(), Rechunk: i%2 == 1,
+		WSizes: [][]int{{4096}, {1, 1427, 1428, 32768, 100}, {32768}, {1448, 7, 65536}}[i%4],
+		RSizes: [][]int{{32768}, {4096, 1, 70000}, {1427}, {32768, 100}}[(i/2)%4]}
 	return c
 }
 
@@ -978,6 +1014,8 @@ func main() {
 		to = 3100
 	}
 	batch(len(sweeps)*2, func(i int) Case { return genSweep(rng.Fork(), i, sweeps[i/2], 0, 1, to, 1) })
+	// full duplex: both endpoints reading and writing simultaneously
+	batch(r.Scale(8, 32), func(i int) Case { return genDuplex(rng.Fork(), i, r.Thorough()) })
 	// every cut point of the two handshake flights (deadline + hand-over oracle, both roles)
 	{
 		nFam := r.Scale(3, 6)
